@@ -690,6 +690,32 @@ func (e *Engine) runLoop(fr *Frame, li *loopInfo, edgesIn []edge) map[*ssa.Basic
 	e.assumeInvariants(fr, li, invs, stH, pcIn)
 	nDef := len(fr.defers)
 	exits, backs := e.runRegion(fr, li.rpo, map[*ssa.BasicBlock][]edge{li.header: {{pc: pcIn, st: stH}}}, li.header)
+	// a range loop over a slice leaves exactly when its index reaches the
+	// length (the length is read once, the index grows by one from -1)
+	for _, phi := range phis {
+		if phi.Comment != "rangeindex" {
+			continue
+		}
+		f := stH.vals[phi]
+		next := Add(f, IntT(1))
+		for _, exs := range exits {
+			for _, ex := range exs {
+				for _, cj := range conj(ex.pc) {
+					if cj.Op == "not" && cj.Args[0].Op == "<" && cj.Args[0].Args[0] == next {
+						L := cj.Args[0].Args[1]
+						e.assume(ex.pc, Eq(next, L))
+						// the invariants hold at this exit with the index written as
+						// length-1: restated so that they mention the length itself
+						if invs != nil && !fr.clause {
+							sx := ex.st.clone()
+							sx.vals[phi] = Sub(L, IntT(1))
+							e.assumeInvariants(fr, li, invs, sx, ex.pc)
+						}
+					}
+				}
+			}
+		}
+	}
 	if len(fr.defers) > nDef {
 		for _, d := range fr.defers[nDef:] {
 			if !e.deferHarmless(d) {
@@ -1719,10 +1745,11 @@ func (e *Engine) addObl(fr *Frame, kind, label string, props []string, pc, goal 
 	if kind == "ensures" || kind == "inv-init" || kind == "inv-step" || kind == "requires" {
 		if parts := splitGoal(goal, 0); len(parts) > 1 && len(parts) <= 40 {
 			for i, g := range parts {
-				e.addOblOne(fr, kind, fmt.Sprintf("%s.%d", label, i+1), props, pc, g, pos)
+				e.addOblOne(fr, kind, fmt.Sprintf("%s.%d", label, i+1), props, pc, RestrictGoal(g, pc), pos)
 			}
 			return
 		}
+		goal = RestrictGoal(goal, pc)
 	}
 	e.addOblOne(fr, kind, label, props, pc, goal, pos)
 }
